@@ -99,12 +99,10 @@ def stepFn (cfg : Cfg) (ga : Nat → Int) (s : S) : Tid → Act → Option S
     | _ => none
   | .worker, .wkAcquire =>
     if s.wpc = .lockQ ∧ s.qlock = none then some { s with wpc := .top, qlock := some .worker } else none
-  | .worker, .wkPop =>
-    match s.queue with
-    | b :: q =>
-      if s.wpc = .top then some { s with wpc := .popped b, queue := q, loc := upd s.loc b .worker }
-      else none
-    | [] => none
+  | .worker, .wkPop b =>
+    if s.wpc = .top ∧ b ∈ s.queue then
+      some { s with wpc := .popped b, queue := s.queue.erase b, loc := upd s.loc b .worker }
+    else none
   | .worker, .wkWait =>
     if s.wpc = .top ∧ s.queue = [] then some { s with wpc := .waiting, qlock := none } else none
   | .worker, .wkSpurious =>
